@@ -47,6 +47,22 @@ def all_validators():
                 continue
             for v in vs:
                 by.setdefault(type(v).__name__, []).append(v)
+        # parameter values the element pool does not contain (unanchored patterns, zero / fractional / negative limits, ...)
+        from statham.schema.elements import Element
+        for kw in ({"pattern": "b$"}, {"pattern": "b"}, {"pattern": "a|b"}, {"pattern": ""}, {"pattern": "^a.c$"},
+                   {"minimum": -1}, {"minimum": 0}, {"minimum": 2.5}, {"maximum": -1}, {"maximum": 0}, {"maximum": 2.5},
+                   {"exclusiveMinimum": 0}, {"exclusiveMinimum": 1.5}, {"exclusiveMaximum": 0}, {"exclusiveMaximum": 1.5},
+                   {"multipleOf": 3}, {"multipleOf": 0.5}, {"multipleOf": 2.5}, {"minLength": 0}, {"minLength": 3}, {"maxLength": 0}, {"maxLength": 2},
+                   {"minItems": 0}, {"minItems": 2}, {"maxItems": 0}, {"maxItems": 2}, {"minProperties": 0}, {"maxProperties": 0}, {"maxProperties": 1},
+                   {"const": []}, {"const": {}}, {"const": True}, {"const": 1.0}, {"const": [1, {"a": [True]}]}, {"enum": [[1], {"a": 1.0}, "s", None]},
+                   {"enum": []}, {"required": []}, {"required": ["a", "b"]}, {"dependencies": {"a": ["b", "c"], "b": []}}, {"format": "date-time"}, {"format": "uuid"},
+                   {"format": "no-such-format"}, {"uniqueItems": True}):
+            try:
+                for v in Element(**kw).validators:
+                    if type(v).__name__ not in ("InstanceOf", "AdditionalProperties", "AdditionalItems"):
+                        by.setdefault(type(v).__name__, []).insert(0, v)
+            except Exception:
+                continue
         _validators_cache = by
     return _validators_cache
 
@@ -97,10 +113,17 @@ def pool(contract, seed=0, limit=4000):
         if meth == "error_message":
             yield from cap((fn, (v,)) for v in insts)
             return
+        # values of the validator's own types first, the compound ones (generated last) before the simple ones: the differences
+        # between == and look-alikes (canonical text, hashing) only show on nested values
+        def ordered(v):
+            ts = tuple(t for t in (getattr(v, "types", None) or ()) if isinstance(t, type))
+            own = [x for x in vals if ts and isinstance(x, ts) and not (isinstance(x, bool) and bool not in ts)]
+            rest = [x for x in vals if not any(x is y for y in own)]
+            return own[::-1] + rest
         if meth == "_validate":
-            yield from cap((fn, (v, val)) for v in insts for val in vals)
+            yield from cap((fn, (v, val)) for v in insts for val in ordered(v))
         else:
-            yield from cap((fn, (v, val, UNBOUND_PROPERTY)) for v in insts for val in vals)
+            yield from cap((fn, (v, val, UNBOUND_PROPERTY)) for v in insts for val in ordered(v))
         return
     if meth == "from_element":
         owner, _ = resolve(key)
